@@ -27,7 +27,7 @@ echo "confirm: demo-alone-failures=$ok_demo_pass demo+defect-failures=$ok_demo_f
 # now against the checks
 [ -n "${CONFIRM_ONLY:-}" ] && exit 0
 cd /repo && git diff --quiet || { echo "/repo dirty"; exit 2; }
-if ! git apply --check $out/patch.diff 2>/dev/null; then echo "patch does not apply to current /repo HEAD (3-way)"; git apply -3 $out/patch.diff || { echo "cannot apply"; git checkout -- .; exit 3; }; else git apply $out/patch.diff; fi
+if ! git apply --check $out/patch.diff 2>/dev/null; then echo "patch does not apply to current /repo HEAD (3-way)"; git apply -3 $out/patch.diff || { echo "cannot apply"; git reset -q --hard HEAD; exit 3; }; else git apply $out/patch.diff; fi
 cp /verif/evidence/$prop.json /tmp/ev_$prop.json 2>/dev/null
 cd /verif && ./check $prop quick > $out/check_output.txt 2>&1; code=$?
 cp /tmp/ev_$prop.json /verif/evidence/$prop.json 2>/dev/null
